@@ -27,7 +27,15 @@ MAX_K = 14
 MAX_K_BATCHED = 34
 
 
+SUITE_CONTRACTS = True   # thorough tier also runs the repository's own tests under vlib/suite_plugin.py
+_SUITE_REQUIRED = ['suite:cwrite_checks', 'suite:write_checks']
+
+
 def REQUIRED(tier):
+    return _required(tier) + (_SUITE_REQUIRED if tier == "thorough" else [])
+
+
+def _required(tier):
     return ["snapshots_taken", "snapshot_prefix_checks", "kill_children", "kill:died_at_point", "kill:survivor_opened", "truncations", "strace_runs", "strace_write_events",
             "writers_covered", "snapshot:preexisting_output", "kill:preexisting_output", "snapshot:product_over_1MiB"]
 
